@@ -149,7 +149,96 @@ def jobs(tier):
     repl = [v for k, v in NAMES.items() if k != 'FN']
     return [Job('srs_JettisonOutgoingResults', tu, 'h_main', enforce=[FN], replace=repl, loops=True, klass='proved', expect_loop_contracts=8,
                 functions=[(SRS_CPP, 'StorageReflectSession::JettisonOutgoingResults')], timeout=2400, split=0,
-                note='termination: four loop variants over ghost item counts; item counts and queue length are unbounded')]
+                note='termination: four loop variants over ghost item counts; item counts and queue length are unbounded'),
+            subtrees_job()]
+
+
+# ---- second handler: JettisonOutgoingSubtrees (termination + "never calls StringMatcher::Match(NULL)" + queue indices stay valid) ----
+FN2 = '_ZN6muscle21StorageReflectSession24JettisonOutgoingSubtreesEPKNS_6StringE'
+PRE2 = r"""
+#define ST_OK(r) ((r)._desc == (const char *)0)
+unsigned int mv_qn;          /* ghost: number of Messages in the outgoing queue */
+struct Queue_Ref_Message mv_oq; struct AbstractMessageIOGateway mv_gw; struct Ref_Message mv_ref; struct Message mv_some_msg; char mv_cstr[4];
+
+struct Ref_AbstractMessageIOGateway *%(GetGateway)s(struct AbstractReflectSession *this)
+__CPROVER_requires(1) __CPROVER_assigns() __CPROVER_ensures(1);
+struct AbstractMessageIOGateway *%(RefGwCall)s(struct Ref_AbstractMessageIOGateway *this)
+__CPROVER_requires(1) __CPROVER_assigns() __CPROVER_ensures(__CPROVER_return_value == (struct AbstractMessageIOGateway *)0 || __CPROVER_return_value == &mv_gw);
+struct Queue_Ref_Message *%(GetOQ)s(struct AbstractMessageIOGateway *this)
+__CPROVER_requires(this == &mv_gw) __CPROVER_assigns() __CPROVER_ensures(__CPROVER_return_value == &mv_oq);
+int %(LastValid)s(struct Queue_Ref_Message *this)
+__CPROVER_requires(this == &mv_oq) __CPROVER_assigns() __CPROVER_ensures(__CPROVER_return_value == (int)mv_qn - 1);
+/* Queue::GetItemAt(i) returns NULL for an invalid index and the handler dereferences the result: the index must be valid */
+struct Ref_Message *%(GetItemAt)s(struct Queue_Ref_Message *this, unsigned int index)
+__CPROVER_requires(this == &mv_oq && index < mv_qn) __CPROVER_assigns() __CPROVER_ensures(__CPROVER_return_value == &mv_ref);
+struct Message *%(GetItemPointer)s(struct Ref_Message *this)
+__CPROVER_requires(this == &mv_ref) __CPROVER_assigns(mv_some_msg.what)
+__CPROVER_ensures(__CPROVER_return_value == (struct Message *)0 || __CPROVER_return_value == &mv_some_msg);
+struct status_t %(RemoveItemAt)s(struct Queue_Ref_Message *this, unsigned int index)
+__CPROVER_requires(this == &mv_oq) __CPROVER_assigns(mv_qn)
+__CPROVER_ensures(mv_qn == ((index < __CPROVER_old(mv_qn)) ? __CPROVER_old(mv_qn) - 1 : __CPROVER_old(mv_qn)));
+/* Message::GetCstr(name, default NULL): a C string or NULL when the field is absent */
+char *%(GetCstr)s(struct Message *this, struct String *fn, char *defVal, unsigned int idx)
+__CPROVER_requires(this == &mv_some_msg && fn != (struct String *)0) __CPROVER_assigns()
+__CPROVER_ensures(__CPROVER_return_value == defVal || __CPROVER_return_value == &mv_cstr[0]);
+void %(SMCtor)s(struct StringMatcher *this)
+__CPROVER_requires(this != (struct StringMatcher *)0) __CPROVER_assigns(__CPROVER_object_whole(this)) __CPROVER_ensures(1);
+void %(SMDtor)s(struct StringMatcher *this)
+__CPROVER_requires(this != (struct StringMatcher *)0) __CPROVER_assigns(__CPROVER_object_whole(this)) __CPROVER_ensures(1);
+struct status_t %(SetPattern)s(struct StringMatcher *this, struct String *expression, _Bool isSimpleFormat)
+__CPROVER_requires(this != (struct StringMatcher *)0 && expression != (struct String *)0) __CPROVER_assigns(__CPROVER_object_whole(this)) __CPROVER_ensures(1);
+/* StringMatcher::Match(const char *) hands its argument to regexec()/strcmp(): NULL crashes the server */
+_Bool %(Match)s(struct StringMatcher *this, char *matchString)
+__CPROVER_requires(this != (struct StringMatcher *)0 && matchString != (char *)0) __CPROVER_assigns() __CPROVER_ensures(1);
+void %(StrCtor)s(struct String *this, char *s, unsigned int n)
+__CPROVER_requires(this != (struct String *)0) __CPROVER_assigns(__CPROVER_object_whole(this)) __CPROVER_ensures(1);
+void %(StrDtor)s(struct String *this)
+__CPROVER_requires(this != (struct String *)0) __CPROVER_assigns(__CPROVER_object_whole(this)) __CPROVER_ensures(1);
+
+void %(FN2)s(struct StorageReflectSession *this, struct String *optMatchString)
+__CPROVER_requires(mv_qn <= 0x7fffffffu && (optMatchString == (struct String *)0 || __CPROVER_is_fresh(optMatchString, sizeof(struct String))))
+__CPROVER_assigns(mv_qn, mv_some_msg.what)
+__CPROVER_ensures(mv_qn <= __CPROVER_old(mv_qn));
+"""
+NAMES2 = dict(
+    GetGateway=NAMES['GetGateway'], RefGwCall=NAMES['RefGwCall'], GetOQ=NAMES['GetOQ'], LastValid=NAMES['LastValid'], GetItemAt=NAMES['GetItemAt'],
+    GetItemPointer=NAMES['GetItemPointer'], RemoveItemAt=NAMES['RemoveItemAt'], StrCtor=NAMES['StrCtor'], StrDtor=NAMES['StrDtor'],
+    GetCstr='_ZNK6muscle7Message7GetCstrERKNS_6StringEPKcj', SMCtor='_ZN6muscle13StringMatcherC1Ev', SMDtor='_ZN6muscle13StringMatcherD1Ev',
+    SetPattern='_ZN6muscle13StringMatcher10SetPatternERKNS_6StringEb', Match='_ZNK6muscle13StringMatcher5MatchEPKc', FN2=FN2)
+
+
+def lower2():
+    if 'L2' in _cache:
+        return _cache['L2']
+    wd = tempfile.mkdtemp(prefix='mv_ast_', dir=os.environ.get('MV_SCRATCH', '/var/tmp'))
+    try:
+        docs = cxx2c.dump_ast(TU_CPP, wd, repo=REPO)
+        L = cxx2c.Lowerer(docs, memberwise=('status_t',), follow=lambda qn, d: qn.endswith('StorageReflectSession::JettisonOutgoingSubtrees') or 'status_t::' in qn)
+        roots = cxx2c.find_functions(L, record='StorageReflectSession', names=['JettisonOutgoingSubtrees'])
+        if len(roots) != 1:
+            raise cxx2c.Unsupported('JettisonOutgoingSubtrees not found')
+        # the queue walk: the index stays below the (shrinking) queue length, which is what "must do this backwards" is about
+        L.loop_table = {(FN2, 0): '__CPROVER_assigns(i, mv_qn, mv_some_msg.what)\n__CPROVER_loop_invariant(i >= -1 && (long)i < (long)mv_qn && mv_qn <= __CPROVER_loop_entry(mv_qn) && mv_qn <= 0x7fffffffu)\n__CPROVER_decreases((long)i + 1)'}
+        L.lower_all(roots)
+        if len(getattr(L, 'loops_used', set())) != 1:
+            raise cxx2c.Unsupported('expected 1 loop in JettisonOutgoingSubtrees, the lowering saw %s' % (getattr(L, 'loops_seen', []),))
+    finally:
+        shutil.rmtree(wd, ignore_errors=True)
+    _cache['L2'] = L
+    return L
+
+
+def subtrees_job():
+    L = lower2()
+    hdr, body = L.sliced([FN2])
+    missing = [v for v in NAMES2.values() if v + '(' not in hdr]
+    if missing:
+        raise cxx2c.Unsupported('opaque collaborator(s) no longer called by JettisonOutgoingSubtrees (contract has no subject): %s' % missing)
+    har = '\nvoid h_main(void) { unsigned int n_; mv_qn = n_; struct StorageReflectSession *s; struct String *m; %s(s, m); %s }\n' % (FN2, END)
+    tu = hdr + PRE2 % NAMES2 + '\n' + body + har
+    return Job('srs_JettisonOutgoingSubtrees', tu, 'h_main', enforce=[FN2], replace=[v for k, v in NAMES2.items() if k != 'FN2'], loops=True, klass='proved', expect_loop_contracts=2,
+               functions=[(SRS_CPP, 'StorageReflectSession::JettisonOutgoingSubtrees')], timeout=2400, split=0,
+               note='termination (variant on the queue index), every queue index handed to GetItemAt is valid while items are removed, StringMatcher::Match is never given NULL; queue length unbounded')
 
 
 def meta(tier):
@@ -159,10 +248,12 @@ def meta(tier):
         trusted_base=['clang 14 AST', 'mv/cxx2c.py', 'cbmc 6.11.0 / goto-instrument --dfcc (loop contracts, decreases clauses)'],
         assumptions=['Message::FindString/FindMessage succeed exactly for valid item indices; Message::RemoveData removes item i iff i is valid and otherwise changes nothing (Message.h documentation)',
                      'MessageFieldNameIterator visits every remaining field name once and survives removals (its documentation)',
-                     'Queue<MessageRef>, Ref<>, PathMatcher, String are opaque (no effect on the ghost counters)', 'single thread (the server is single-threaded)'],
-        assumed_contracts=sorted(k for k in NAMES if k != 'FN'),
-        not_lowered=['every other command handler of StorageReflectSession', 'the gateways\' receive loops', 'regex back-tracking cost', 'liveness of the event loop (second client\'s ping)'],
+                     'Queue<MessageRef>, Ref<>, PathMatcher, String are opaque (no effect on the ghost counters)', 'single thread (the server is single-threaded)',
+                     'JettisonOutgoingSubtrees: Queue::GetItemAt needs a valid index (it returns NULL otherwise and the handler dereferences the result); StringMatcher::Match(const char *) needs a non-NULL argument; Message::GetCstr returns its default (NULL) or a C string'],
+        assumed_contracts=sorted(set(k for k in NAMES if k != 'FN') | set(k for k in NAMES2 if k != 'FN2')),
+        not_lowered=['every command handler of StorageReflectSession other than JettisonOutgoingResults and JettisonOutgoingSubtrees', 'the gateways\' receive loops', 'regex back-tracking cost', 'liveness of the event loop (second client\'s ping)'],
         explanation='StorageReflectSession::JettisonOutgoingResults (the handler that edits already-queued replies) is lowered from the real source and every one of its four loops is given a variant '
-                    '(__CPROVER_decreases) over ghost item counts, with all collaborators replaced by contracts: the obligation "variant decreases after step" is decided for any queue length and any item counts.',
+                    '(__CPROVER_decreases) over ghost item counts, with all collaborators replaced by contracts: the obligation "variant decreases after step" is decided for any queue length and any item counts. '
+                    'JettisonOutgoingSubtrees (the other handler that edits queued replies) is lowered the same way: its queue walk terminates, every index it hands to the queue stays valid while it removes items, and it never passes NULL to StringMatcher::Match (the crash half of C07 for this handler).',
         extra_coverage=dict(functions_lowered=len(L.order)),
     )
